@@ -26,7 +26,8 @@ RULE = ('scenarios: trash-restore (single / multi index; file, deep directory, s
         'same/cross volume, op the kill preceded) with a crash state different from initial and final')
 ASSUMPTIONS = ['kill = SIGKILL between two system calls; no power loss', 'restore destinations are free (clobbering is C06)']
 PROBES = ['crash-states', 'restore-scenarios', 'empty-scenarios', 'rm-scenarios', 'cross-volume-restore', 'killed-mid-copy', 'killed-mid-rmtree',
-          'killed-between-payload-and-info', 'recovery-rerun-completed', 'recovery-empty-after-restore']
+          'killed-between-payload-and-info', 'recovery-rerun-completed', 'recovery-empty-after-restore', 'history-order-checked',
+          'history-names-a-crash-point', 'thousands-of-entries']
 TECHNIQUE = 'deterministic simulation with crash injection enumerated over every mutating op of seeded restore/empty/rm scenarios; crash-state invariant + recovery'
 LEVEL_TEXT = 'crash points enumerated completely per sampled scenario; scenarios sampled by seed'
 LEVEL_NOTE = 'trusted: sticky-kill model, snapshot function, model/bag.py'
@@ -75,6 +76,18 @@ def gen(rng):
         tdir = locs[0][0]
         G.add_trashed(steps, tdir, 'entabyss', TG.pct(home + '/w/entabyss'), '2011-01-01T00:00:00', 'dir', tag='abyss')
         steps.append(['d', tdir + '/files/entabyss' + '/d' * 1100, 0o755])
+    many = 0
+    if cmd in ('trash-empty', 'trash-rm') and rng.random() < 0.01:
+        # hundreds or thousands of entries in one trash directory, just past a round number: an implementation that works in
+        # batches (of 100, 128, 256, 500, 512, 1000, 1024, 2048 ...) reaches its batch boundary
+        many = rng.choice([100, 128, 256, 500, 512, 1000, 1000, 1024, 2048]) + rng.choice([1, 2, 3, 7])
+        tdir = locs[0][0]
+        for sub in ('', '/files', '/info'):
+            steps.append(['d', tdir + sub, 0o700])
+        for j in range(many):
+            nm_ = 'ent-many-%05d' % j
+            steps.append(['f', tdir + '/files/' + nm_, 'x', 0o644, 1_200_000_000 + j])
+            steps.append(['f', tdir + '/info/' + nm_ + '.trashinfo', G.fmt_info(TG.pct(home + '/w/' + nm_), '2012-01-01T00:00:00'), 0o600, 1_250_000_000 + j])
     if cmd == 'trash-empty' and rng.random() < 0.5:
         steps.append(['f', locs[0][0] + '/files/orphan1', 'o', 0o644])
     if cmd == 'trash-restore':
@@ -89,13 +102,16 @@ def gen(rng):
     else:
         argv = ['trash-rm', rng.choice(['*', 'ent*', 'ent[0-1]', 'ent0'])]
         spec = {'argv': argv, 'env': env, 'cwd': '/', 'uid': uid}
-    return {
+    case_ = {
         'world': {'mounts': L['mounts'], 'steps': steps},
         'procs': [spec],
         'dirsalt': rng.randrange(1 << 30),
         'clock': {'start': '2025-03-03T03:03:03.000000'},
-        'note': {'cmd': cmd, 'cross': cross},
+        'note': {'cmd': cmd, 'cross': cross, 'many': many},
     }
+    if many:
+        case_['crash_sample'] = 4
+    return case_
 
 
 PINS = {}
@@ -134,6 +150,17 @@ def check(sim, case, st):
             full_exc = (r.exc_frame, (r.exc or '').split(':')[0]) if r.exc is not None else None
             final_bag_keys = OR.bag_keys(OR.scan(sim, final, env, uid, mounts)) if False else None
             st.probes[cmd.split('-')[1] + '-scenarios'] += 1
+            if cmd in ('trash-empty', 'trash-rm'):
+                # the recorded history of the undisturbed run names the crash points at which an info file is gone before its
+                # payload: they are visited in addition to the enumerated / sampled ones
+                case.pop('crash_extra', None)
+                hot = EC.info_removed_before_payload(r.trace)
+                st.probes['history-order-checked'] += 1
+                if hot:
+                    case['crash_extra'] = [h[0] for h in hot[:3]]
+                    st.probes['history-names-a-crash-point'] += 1
+            if note.get('many'):
+                st.probes['thousands-of-entries'] += 1
             if note.get('cross'):
                 st.probes['cross-volume-restore'] += 1
             continue
